@@ -15,8 +15,9 @@ out = ["### 8.4 Seeded changes (written by independent sub-agents; `seeded/<id>/
        "Each sub-agent received only the text of one property and its own scratch worktree of /repo (nothing from /verif), and",
        "returned a change that still passes the 55 repository tests plus a demonstration script.  Every change was confirmed",
        "with `tools/seedcheck.sh` (demo PASS on the unmodified tree, tests pass with the change, demo FAIL with the change) and",
-       "then the property's quick check was run against the changed worktree (`VERIF_REPO=<worktree>`).  Three rounds (a: free",
-       "choice, b: a named focus area per property, c: \"not the obvious place\"), %d changes: %d were reported by the check as it" % (len(rows), len(rows) - len(missed)),
+       "then the property's quick check was run against the changed worktree (`VERIF_REPO=<worktree>`).  Five rounds (a: free",
+       "choice, b: a named focus area per property, c: \"not the obvious place\", d: disguised as a performance / clean-up",
+       "commit, e: needs an exact coincidence a random generator would not produce), %d changes: %d were reported by the check as it" % (len(rows), len(rows) - len(missed)),
        "stood at the time, %d were missed and led to the strengthening noted per seed in `meta.json` (`history`); after that all" % len(missed),
        "%d are reported by the quick tier at seed 0 (`tools/reseed.sh` re-applies every patch to a fresh worktree and re-checks)." % len(rows),
        "",
@@ -36,6 +37,13 @@ out += ["",
         "  same file path rewritten with another table;",
         "* cover the wrapper paths too (history log through the I/O-drawer plugin, not only `parse_hlog_data`), place the primary",
         "  SRC elsewhere than third, render BMC-format dumps beyond 64 KiB;",
+        "* *state outside the process counts as input*: output paths that already exist (same-size stale files, longer previous",
+        "  exports), files rewritten with the same size and time stamp, sub-directories named like PEL files, the caller's buffer",
+        "  being a window onto a larger one, directories and look-up ids that occur inside directory names;",
+        "* text is not ASCII: UTF-8 multi-byte characters in fixed-width fields, non-UTF-8 file names, all Unicode line",
+        "  separators inside header files, keys of user JSON that collide with the tool's own keys;",
+        "* hangs inside one library call (regex backtracking) produce no trace events: a generous wall-clock alarm is the only",
+        "  observer, and inputs that fail *inside* a library layer (RecursionError, ModuleNotFoundError) are junk classes too;",
         "* an exception escaping the decoder under test is a violation to report, never a crashed shard;",
         "* do not accept two readings where the code base has one (declared trace-buffer size inside an entry).",
         "",
